@@ -235,6 +235,38 @@ env_proof! {
     fn c01_append_rotating_none() { append_rotating(false); }
 }
 
+// one append call with two entries: applied in order, the call stops at the
+// first entry the reference log refuses and the entries before it stay
+// @harness name=c01_append_two prop=C01 tier=thorough timeout=3000
+env_proof! {
+    unwind = 6, rot = ghost, crc = off,
+    fn c01_append_two() {
+        let cfg = mk_config(None, None, None, None);
+        let mut rl: RaftLog<KTypes> = open_empty(cfg);
+        let mut m = Model::any_reachable_n(1);
+        inject(&mut rl, &m);
+        let id1: Id = kani::any();
+        let id2: Id = kani::any();
+        let p1: P = kani::any();
+        let p2: P = kani::any();
+        kani::assume(id1.1 < 250 && id2.1 < 250);
+        let ok = is_ok(rl.append([(id1, p1), (id2, p2)]));
+        let ok1 = m.append_ok(id1);
+        if ok1 {
+            m.do_append(id1, p1);
+        }
+        let ok2 = ok1 && m.append_ok(id2);
+        if ok2 {
+            m.do_append(id2, p2);
+        }
+        assert!(ok == ok2, "two-entry append accepted/rejected differently from the reference log");
+        assert_matches(&rl, &m);
+        kani::cover!(ok, "both entries appended");
+        kani::cover!(ok1 && !ok2, "first entry stays, second refused");
+        core::mem::forget(rl);
+    }
+}
+
 fn mk3() -> (RaftLog<KTypes>, Model) {
     let cfg = mk_config(None, None, None, None);
     let mut rl: RaftLog<KTypes> = open_empty(cfg);
